@@ -16,4 +16,4 @@ Definition pair_eqb {A B} (ea : A -> A -> bool) (eb : B -> B -> bool) (a b : A *
 Definition failing_by {C} (ok : C -> bool) (cases : list C) : list nat :=
   flat_map (fun ic => if ok (snd ic) then [] else [fst ic]) (combine (seq 0 (List.length cases)) cases).
 Definition explain_by {C E} (ok : C -> bool) (ex : C -> E) (cases : list C) : list (nat * E) :=
-  flat_map (fun ic => if ok (snd ic) then [] else [(fst ic, ex (snd ic))]) (combine (seq 0 (List.length cases)) cases).
+  firstn 2 (flat_map (fun ic => if ok (snd ic) then [] else [(fst ic, ex (snd ic))]) (combine (seq 0 (List.length cases)) cases)).
